@@ -439,7 +439,15 @@ impl Formatter {
     if self.html {
       format!("<h{} id=\"{}\" {} class=\"mech-program-subtitle {}\"><a class=\"mech-program-subtitle-link {}\" href=\"#{}\">{}</a></h{}>", level, title_id, section, toc, toc, link_id, node.to_string(), level)
     } else {
-      format!("{}\n-------------------------------------------------------------------------------\n",node.to_string())
+      // Sections are numbered and underlined, sub-headings carry their number in parentheses.
+      let numbers = [self.h2_num, self.h3_num, self.h4_num, self.h5_num, self.h6_num];
+      if level <= 2 {
+        format!("{}. {}\n-------------------------------------------------------------------------------\n", self.h2_num, node.to_string())
+      } else {
+        let depth = if level == 3 { 2 } else { (level as usize - 1).min(numbers.len()) };
+        let number = numbers[..depth].iter().map(|n| n.to_string()).collect::<Vec<String>>().join(".");
+        format!("({}) {}\n", number, node.to_string())
+      }
     }
   }
 
